@@ -779,7 +779,7 @@ class Frame:
                 base.fields[t.attr] = v
             elif isinstance(base, Rec):
                 base.fields[t.attr] = v
-            elif isinstance(base, (SV, SArr)) and t.attr == 'flags':
+            elif isinstance(base, (SV, SArr)) and t.attr in ('flags', 'name'):
                 pass
             else:
                 npmodel.setattr_(self.I, base, t.attr, v)
